@@ -17,7 +17,7 @@ from ..par import pmap
 LEVEL = 'fault_enumeration'
 
 CAUSES = ['transport-error', 'client-disconnect', 'server-disconnect',
-          'server-close']
+          'server-close', 'ns-closed-then-transport-error']
 NSS = ['/', '/a']
 URL = 'http://host:1/x?y=1'
 HEADERS = {'X-H': 'v'}
@@ -191,7 +191,8 @@ def run_case(is_async, cause, recon, word, shutdown_at, extra, params, j,
         obs.update(calls=[dict(x) for x in calls], waits=list(waits),
                    auth_calls=len(auth_calls), final=(
                        c.connected, sorted(c.namespaces)))
-        accidental = cause == 'transport-error'
+        accidental = cause in ('transport-error',
+                            'ns-closed-then-transport-error')
         should = recon and accidental
         if not should:
             if calls:
@@ -322,6 +323,13 @@ def _lose_raw(w):
 
 def _cause(w, cause, is_async):
     if cause == 'transport-error':
+        return w.lose()
+    if cause == 'ns-closed-then-transport-error':
+        # the server ends one of the two namespaces (the client stays
+        # connected on the other), then the transport is lost by accident:
+        # the effort reconnects with the original parameters
+        w.deliver_packet(1, '/a')
+        w.take_log()
         return w.lose()
     if cause == 'client-disconnect':
         return w.api('disconnect')
